@@ -8,7 +8,7 @@ Open Scope N_scope.
 Theorem C19_scanner_total :
   forall t : str,
          (exists m : tagmap, tag_scan t = Ok m) \/ (exists msg : str, tag_scan t = Err (EFlags ErrTag msg)).
-Proof. exact C19_tag_total. Qed.
+Proof. exact @C19_tag_total. Qed.
 Print Assumptions C19_scanner_total.
 
 (* any legal tag (arbitrary quoted values incl. escapes, repeated keys, extra spaces) yields exactly its key/value lists *)
@@ -21,7 +21,7 @@ Theorem C19_tag_values_exact :
          (forall k : str,
           tm_get m k = last (map snd (filter (fun kv : str * str => str_eqb (fst kv) k) (map snd l))) []) /\
          (forall k : str, tm_has m k = existsb (fun kv : str * str => str_eqb (fst kv) k) (map snd l)).
-Proof. exact C19_tag_roundtrip_spaces. Qed.
+Proof. exact @C19_tag_roundtrip_spaces. Qed.
 Print Assumptions C19_tag_values_exact.
 
 Theorem C19_option_fields :
@@ -58,14 +58,14 @@ Theorem C19_option_fields :
          (rune_count (tm_get m (s2l "short")) <= 1)%nat /\
          nonempty (tm_get m (s2l "long")) || nonempty (tm_get m (s2l "short"))
          || nonempty (tm_get m (s2l "ini-name")) = true /\ vtype_is_bool ty && tm_has m (s2l "default") = false.
-Proof. exact C19_make_opt_faithful. Qed.
+Proof. exact @C19_make_opt_faithful. Qed.
 Print Assumptions C19_option_fields.
 
 Theorem C19_not_an_option :
   forall (name : str) (m : tagmap) (ty : vtype) (fid : nat),
          make_opt name m ty fid = Ok None <->
          tm_get m (s2l "long") = [] /\ tm_get m (s2l "short") = [] /\ tm_get m (s2l "ini-name") = [].
-Proof. exact C19_make_opt_none. Qed.
+Proof. exact @C19_make_opt_none. Qed.
 Print Assumptions C19_not_an_option.
 
 Theorem C19_short_name_too_long :
@@ -75,7 +75,7 @@ Theorem C19_short_name_too_long :
          Err
            (EFlags ErrShortNameTooLong
               (s2l "short names can only be 1 character long, not `" ++ tm_get m (s2l "short") ++ s2l "'")).
-Proof. exact C19_short_too_long. Qed.
+Proof. exact @C19_short_too_long. Qed.
 Print Assumptions C19_short_name_too_long.
 
 Theorem C19_default_on_boolean :
@@ -86,7 +86,7 @@ Theorem C19_default_on_boolean :
          nonempty (tm_get m (s2l "long")) || nonempty (tm_get m (s2l "short"))
          || nonempty (tm_get m (s2l "ini-name")) = true ->
          exists msg : str, make_opt name m ty fid = Err (EFlags ErrInvalidTag msg).
-Proof. exact C19_bool_default. Qed.
+Proof. exact @C19_bool_default. Qed.
 Print Assumptions C19_default_on_boolean.
 
 (* a declaration passes the duplicate check iff its namespaced long names and its short names are pairwise distinct *)
@@ -96,7 +96,7 @@ Theorem C19_duplicates_detected :
          (check_dups delim g = None <-> NoDup (lk delim ocs) /\ NoDup (sk ocs)) /\
          (check_dups delim g = None \/
           (exists msg : str, check_dups delim g = Some (EFlags ErrDuplicatedFlag msg))).
-Proof. exact C19_check_dups_iff. Qed.
+Proof. exact @C19_check_dups_iff. Qed.
 Print Assumptions C19_duplicates_detected.
 
 Theorem C19_duplicates_complete :
@@ -108,6 +108,37 @@ Theorem C19_duplicates_complete :
          nonempty (o_long (oc_opt oc2)) = true /\ long_name delim oc1 = long_name delim oc2 \/
          o_short (oc_opt oc1) <> 0 /\ o_short (oc_opt oc1) = o_short (oc_opt oc2) ->
          exists msg : str, check_dups delim g = Some (EFlags ErrDuplicatedFlag msg).
-Proof. exact C19_check_dups_complete_nth. Qed.
+Proof. exact @C19_check_dups_complete_nth. Qed.
 Print Assumptions C19_duplicates_complete.
+
+(* ---- added by bin/mkprops (batch 2) ---- *)
+From GoFlags Require Import Base.Str Base.Utf8 Golib.Strings Golib.Strconv Model.Types Model.Tag Model.Scan Model.Lookup Model.Convert Model.State Model.Closest Model.Help Model.Parse Model.Ini Model.Complete.
+From GoFlags Require Import Proofs.RequiredSpec.
+
+(* positional names, descriptions and counts are exactly the tag values *)
+Theorem C19_positional_fields :
+  forall (fs : list field) (req : bool) (acc acc' : sacc),
+         scan_positional fs req acc = Ok acc' ->
+         exists args : list arg,
+           Forall2 arg_faithful fs args /\
+           sa_args acc' = sa_args acc ++ args /\
+           sa_argsreq acc' = sa_argsreq acc || req && fields_nonempty fs /\
+           sa_opts acc' = sa_opts acc /\
+           sa_groups acc' = sa_groups acc /\ sa_cmds acc' = sa_cmds acc /\ sa_attached acc' = sa_attached acc.
+Proof. exact @C19_positional_faithful. Qed.
+Print Assumptions C19_positional_fields.
+
+Theorem C19_positional_counts :
+  parse_req [] = ((-1)%Z, (-1)%Z) /\
+         (forall (s : list N) (n : Z), ~ In 45 s -> dec32 s n -> parse_req s = (n, (-1)%Z)) /\
+         (forall (a : list N) (b : str) (n m : Z),
+          ~ In 45 a -> dec32 a n -> dec32 b m -> parse_req (a ++ 45 :: b) = (n, m)) /\
+         (forall s : list N, s <> [] -> ~ In 45 s -> (forall n : Z, ~ dec32 s n) -> parse_req s = (1%Z, (-1)%Z)) /\
+         (forall a b : list N, ~ In 45 a -> (forall n : Z, ~ dec32 a n) -> fst (parse_req (a ++ 45 :: b)) = 1%Z) /\
+         (forall (a : list N) (b : str),
+          ~ In 45 a -> (forall m : Z, ~ dec32 b m) -> snd (parse_req (a ++ 45 :: b)) = (-1)%Z) /\
+         (forall (a b : list N) (n : Z), ~ In 45 a -> dec32 a n -> fst (parse_req (a ++ 45 :: b)) = n) /\
+         (forall (a : list N) (b : str) (m : Z), ~ In 45 a -> dec32 b m -> snd (parse_req (a ++ 45 :: b)) = m).
+Proof. exact @parse_req_spec. Qed.
+Print Assumptions C19_positional_counts.
 
